@@ -305,13 +305,14 @@ def gen_k_plan(run_seed: int, hashseed: int = 0, catalogue=None, p_backend_c: fl
         if heap_knobs["realloc"] == "size_class":
             heap_knobs["realloc"] = "move"
     # small-stack runs: the whole history runs on a thread with a 256 KiB stack, on vectors with
-    # thousands of stored entries over ONE index (several independent indexes of that size would be
-    # billions of legitimate iterations) (a kernel needs O(1) stack; one that takes a few bytes per loop
+    # thousands of stored entries over ONE index variable (several index variables of that size -
+    # even of one equality class, A(i) = C(k) + B(i) - are 4*10^8 legitimate iterations, which the
+    # thorough tier once ran into the watchdog) (a kernel needs O(1) stack; one that takes a few bytes per loop
     # iteration - an alloca inside a loop - runs off a small stack after a few thousand iterations and
     # off the usual 8 MiB only after hundreds of thousands)
     small_stack = False
     orders = [len(ix) for ix in prob["inputs"].values()] + [len(prob["target"])]
-    if max(orders) <= 1 and len(set(prob["classes"].values())) <= 1 and not backend_c and sum(1 for n in prob["inputs"] if "s" in prob["formats"].get(n, "")) >= 1 \
+    if max(orders) <= 1 and len(prob["classes"]) <= 1 and not backend_c and sum(1 for n in prob["inputs"] if "s" in prob["formats"].get(n, "")) >= 1 \
             and all(v <= 5000 for v in sizes.values()) and rng.random() < 0.3:
         r3 = random.Random(rng.getrandbits(64))
         small_stack = True
